@@ -1225,3 +1225,12 @@ M('c01-pack-writer-getvalue-shortcut', 'C01', "        count_read_bytes = 0\n   
 M('c05-funnel-drops-scratch-pack-rows', 'C05', "        for pack_int_id, pack_metadata in packs.items():\n            pack_metadata.sort(key=lambda metadata: metadata.offset)\n            hashkeys_in_packs.update", "        packs.pop(self._REPACK_PACK_ID, None)\n        for pack_int_id, pack_metadata in packs.items():\n            pack_metadata.sort(key=lambda metadata: metadata.offset)\n            hashkeys_in_packs.update", 'C05.R4')
 M('c16-funnel-drops-scratch-pack-rows', 'C16', "        for pack_int_id, pack_metadata in packs.items():\n            pack_metadata.sort(key=lambda metadata: metadata.offset)\n            hashkeys_in_packs.update", "        packs.pop(self._REPACK_PACK_ID, None)\n        for pack_int_id, pack_metadata in packs.items():\n            pack_metadata.sort(key=lambda metadata: metadata.offset)\n            hashkeys_in_packs.update", 'C16.R1')
 M('c02-session-reset-at-unreviewed-site', 'C02', "        number_packed = self._get_operation_session().scalar(select(func.count()).select_from(Obj))", "        self._close_operation_session()\n        number_packed = self._get_operation_session().scalar(select(func.count()).select_from(Obj))", 'C02.R7')
+
+# ------------------------------------------------------------------------------------------------ round 5 batch 2
+M('c07-lazy-loose-seek-probes-size', 'C07', "        return self._stream.seek(target, whence)\n\n    def tell(self) -> int:\n        \"\"\"Return current stream position, relative to the internal offset.\"\"\"", "        size = self._stream.seek(0, 2)\n        if target > size:\n            raise ValueError('beyond the end')\n        return self._stream.seek(target, whence)\n\n    def tell(self) -> int:\n        \"\"\"Return current stream position, relative to the internal offset.\"\"\"", 'C07.R12', U)
+M('c08-fallback-missing-computed-per-pack', 'C08', "                # I remove those that I found\n                really_not_found.difference_update(obj.hashkey for obj in pack_metadata)", "                # I remove those that I found\n                really_not_found = loose_not_found.difference(obj.hashkey for obj in pack_metadata)", 'C08.R6')
+M('c09-known-keys-through-second-session', 'C09', "                results_chunk = session.execute(stmt).all()", "                results_chunk = get_session(self._get_pack_index_path(), create=False).execute(stmt).all()", 'C09.R4')
+M('c16-import-scan-half-open-range', 'C16', "                self._get_operation_session().execute(text('SELECT hashkey FROM db_object ORDER BY hashkey'))", "                self._get_operation_session().execute(text('SELECT hashkey FROM db_object WHERE hashkey < :last ORDER BY hashkey'), {'last': sorted_hashkeys[-1] if sorted_hashkeys else ''})", 'C16.R1')
+M('c14-import-scan-half-open-range', 'C14', "                self._get_operation_session().execute(text('SELECT hashkey FROM db_object ORDER BY hashkey'))", "                self._get_operation_session().execute(text('SELECT hashkey FROM db_object WHERE hashkey < :last ORDER BY hashkey'), {'last': sorted_hashkeys[-1] if sorted_hashkeys else ''})", 'C14.R3')
+M('c11-repack-skips-locked-packs', 'C11', "        for pack_id in self._list_packs():\n            self.repack_pack(pack_id, compress_mode=compress_mode, callback=callback)", "        for pack_id in self._list_packs():\n            if (self._get_pack_folder() / f'{pack_id}.lock').exists():\n                continue\n            self.repack_pack(pack_id, compress_mode=compress_mode, callback=callback)", 'C11.R4')
+M('c12-validate-logs-and-continues', 'C12', "            pack_errors = self._validate_hashkeys_pack(pack_id=pack_id, callback=callback)", "            try:\n                pack_errors = self._validate_hashkeys_pack(pack_id=pack_id, callback=callback)\n            except (OSError, ValueError):\n                continue", 'C12.R3')
